@@ -363,7 +363,7 @@ def with_multiplier(rng, text):
     return text
 
 
-def rand_multilevel(rng, levels, last_all_atom, squash=False):
+def rand_multilevel(rng, levels, last_all_atom, squash=False, coarse_squash=False):
     """a complete CGsmiles string with `levels` fragment blocks; names at level i+1 are the node
     names used by the fragments of level i"""
     names0 = rng.sample(['A', 'B', 'C', 'D'], rng.randint(1, 3))
@@ -372,7 +372,7 @@ def rand_multilevel(rng, levels, last_all_atom, squash=False):
     cur = names0
     for lv in range(levels):
         aa = last_all_atom and lv == levels - 1
-        defs = rand_frag_block(rng, cur, aa, squash=squash and aa)
+        defs = rand_frag_block(rng, cur, aa, squash=squash and (aa or coarse_squash))
         blocks.append(defs)
         if not aa:
             import re
